@@ -56,6 +56,9 @@ THEOREMS = [
     "XalanModel.Props.C12.multiDoc_history_grouped",
     "XalanModel.Props.C12.step_merge_sortedSet",
     "XalanModel.Props.C12.step_reverseAxis",
+    "XalanModel.Props.C12.locationPath_sortedSet",
+    "XalanModel.Props.C12.axes_sorted",
+    "XalanModel.Props.C12.treeLocationPath_sortedSet",
     "XalanModel.Props.C12.multiDoc_interleave_counterexample",
     "XalanModel.Props.C12.multiDoc_duplicate_counterexample",
     "XalanModel.Props.C12.docNode_appended_counterexample",
@@ -315,6 +318,9 @@ def probe_variant(h):
         return None, None, il
     edge = "asis" if (il[2], il[3]) == ("1", "0") else "fixed" if (il[2], il[3]) == ("0", "1") else "other"
     dn = "doclast" if il[8] == "u : d0.2 d0.0" else "docfirst" if il[8] == "u : d0.0 d0.2" else "other"
+    # does executionContext.isNodeAfter survive a document node on a non-indexed document (EXSLT set:trailing passes one)?
+    il2, rc2 = h.run_impl(["session N", "doc 0 e0(e0())", "xp d0.1 set:trailing(//e/..,//e/..)"], "probe2")
+    h.docnode_after_crashes = (rc2 != 0 or len(il2) < 3)
     grp = "nogroups" if il[13] == "u : d0.1 d1.1 d0.2" else "groups" if il[13] == "u : d0.1 d0.2 d1.1" else "other"
     return edge, dn + " " + grp, il
 
@@ -330,7 +336,7 @@ class Session:
         return ["session " + self.rep] + ["doc %d %s" % (d, s) for d, s in sorted(self.shapes.items())]
 
 
-def make_sessions(r, nsessions, maxnodes, nhist, maxops, nxp):
+def make_sessions(r, nsessions, maxnodes, nhist, maxops, nxp, avoid_lt_on_n=False):
     g = gen()
     out = []
     for si in range(nsessions):
@@ -348,7 +354,18 @@ def make_sessions(r, nsessions, maxnodes, nhist, maxops, nxp):
             d = r.choice(sorted(shapes))
             ctxn = "d%d.%d" % (d, r.below(sizes[d]))
             a, b, c, forms = g.gen_union_shapes(r)
+            if avoid_lt_on_n and rep == "N" and any("set:leading" in e or "set:trailing" in e for e in (a, b, c)):
+                continue        # would kill the harness (known finding C12-isnodeafter-docnode-crash); see run()
             s.cases.append(("xp", ["xp %s %s" % (ctxn, e) for e in (a, b, c)] + ["#forms " + json.dumps([ctxn, forms])]))
+        if r.chance(1, 2):
+            d = r.choice(sorted(shapes))
+            ctxn = "d%d.%d" % (d, r.below(sizes[d]))
+            lines_ = []
+            for x, y in g.gen_identities(r):
+                if avoid_lt_on_n and rep == "N" and ("set:leading" in x + y or "set:trailing" in x + y):
+                    continue
+                lines_ += ["xp %s %s" % (ctxn, x), "xp %s %s" % (ctxn, y)]
+            s.cases.append(("ident", lines_))
         out.append(s)
     return out
 
@@ -581,6 +598,8 @@ def report(ctx, h, variant, sessions, il, lines, owner, dis, vio, budget):
     for v in vio:
         cls = v["cls"]
         key = "%s: %s" % (cls, " ; ".join(v["lines"]))
+        if cls == "crash":
+            key = "crash: at %s ; %s" % (v.get("at", "?"), " ; ".join(v["lines"][:4]))
         # is it known?  (cheap test before shrinking)
         known = any(f.get("match") and __import__("re").search(f["match"], key) for f in ctx.findings)
         inp = v["lines"]
@@ -636,6 +655,13 @@ def cli_oracle(case, out_lines):
             bad.append(("cli-missing", "%s %s: no output line" % (q, expr)))
             continue
         labs = res[q]
+        if spec is not None and spec[0] == "same":
+            a, b = res.get(spec[1]), res.get(spec[2])
+            if a is not None and b is not None:
+                want = "true" if set(a) & set(b) else "false"
+                if labs != [want]:
+                    bad.append(("cli-set", "cli %s delivered %s, expected %s" % (expr, " ".join(labs), want)))
+            continue
         unknown = [x for x in labs if x not in key]
         if unknown:
             bad.append(("cli-label", "%s %s delivered unknown node label %s" % (q, expr, unknown[0])))
@@ -661,6 +687,9 @@ def cli_oracle(case, out_lines):
             want = [e for e in m.elems if m.kval[e] == spec[1]]
         elif kind == "id":
             want = sorted(set("m" + i[1:] for i in spec[1] if ("m" + i[1:]) in m.key), key=sortkey)
+        elif kind == "idfrom":
+            other = docs[spec[1]]
+            want = sorted(set("m" + i[1:] for refs in other.refs.values() for i in refs if ("m" + i[1:]) in m.key), key=sortkey)
         elif kind == "idrefs":
             want = sorted(set("m" + i[1:] for refs in m.refs.values() for i in refs if ("m" + i[1:]) in m.key), key=sortkey)
         elif kind == "union":
@@ -706,7 +735,7 @@ def cli_oracle(case, out_lines):
 
 def cli_stage(ctx, r, ncases, maxnodes):
     g = gen()
-    xalan = os.path.join(common.build_dir("hooks"), "src", "xalanc", "Xalan")
+    xalan = os.path.join(common.build_dir(os.environ.get("VERIF_C12_FLAVOR", "hooks")), "src", "xalanc", "Xalan")
     work = os.path.join(common.CACHE, "work", "c12cli")
     os.makedirs(work, exist_ok=True)
     import re as _re
@@ -741,17 +770,29 @@ def run(ctx):
         "the DOM implementations behind getParentOfNode/getAttributes/getNextSibling (their result is compared with the generated "
         "shape on every document); result-tree fragments, key()/id() node-sets (not driven by this harness)",
     ]
-    ctx.build("hooks")
+    # VERIF_C12_FLAVOR=asan runs the same check against the ASan+UBSan build of the working tree (a sanitizer abort is a crash)
+    flavor = os.environ.get("VERIF_C12_FLAVOR", "hooks")
+    ctx.extra["flavor"] = flavor
+    ctx.build(flavor)
     ctx.lean("XalanModel.Props.C12", THEOREMS, extra_targets=["xm_c12"])
     model = ctx.exe("xm_c12")
-    impl = common.build_harness("c12_nodelist", ["c12_nodelist.cpp"], flavor="hooks")
+    impl = common.build_harness("c12_nodelist", ["c12_nodelist.cpp"], flavor=flavor)
     work = os.path.join(common.CACHE, "work")
     os.makedirs(work, exist_ok=True)
     if model is None:
         return
     h = Harness(ctx, impl, model, work)
+    reps = os.environ.get("VERIF_C12_REPS", "SWN")       # restrict the document representations (sanitizer sample: see design/C12.md)
+    ctx.extra["representations"] = reps
 
-    edge, dn, probe = probe_variant(h)
+    if flavor != "hooks":
+        # the behaviour probes run on the plain build of the same working tree (a sanitizer abort would hide the answer)
+        ctx.build("hooks")
+        hp = Harness(ctx, common.build_harness("c12_nodelist", ["c12_nodelist.cpp"], flavor="hooks"), model, work)
+        edge, dn, probe = probe_variant(hp)
+        h.docnode_after_crashes = hp.docnode_after_crashes
+    else:
+        edge, dn, probe = probe_variant(h)
     ctx.extra["variant_of_tree"] = {"isNodeAfter_ancestor_edge": edge, "document_node_insert": dn}
     if edge == "asis":
         ctx.fail("structural.ancestor-descendant: session N ; doc 0 e0(e0()) ; after d0.1 d0.2",
@@ -772,14 +813,37 @@ def run(ctx):
         nsess, maxnodes, nhist, maxops, nxp = 1200, 24, 8, 24, 3
     else:
         nsess, maxnodes, nhist, maxops, nxp = 8000, 40, 12, 40, 4
-    sessions = corpus_sessions() + make_sessions(r, nsess, maxnodes, nhist, maxops, nxp)
+    if getattr(h, "docnode_after_crashes", False):
+        ctx.fail("crash: isNodeAfter-document-node: session N ; doc 0 e0(e0()) ; xp d0.1 set:trailing(//e/..,//e/..)",
+                 "set:trailing/set:leading hand the document node to XPathExecutionContext::isNodeAfter; on a non-indexed document "
+                 "(Xerces wrapper, buildWrapper=false) DOMServices::isNodeAfter dereferences the document node's null parent: SIGSEGV",
+                 ["session N", "doc 0 e0(e0())", "xp d0.1 set:trailing(//e/..,//e/..)"])
+    sessions = corpus_sessions() + make_sessions(r, nsess, maxnodes, nhist, maxops, nxp,
+                                                 avoid_lt_on_n=getattr(h, "docnode_after_crashes", False))
+    sessions = [s_ for s_ in sessions if s_.rep in reps]
+    ncorp = len([s_ for s_ in corpus_sessions() if s_.rep in reps])
     if ctx.thorough:
         exh, nshapes = exhaustive_sessions(5, 5)
-        sessions = sessions[:len(corpus_sessions())] + exh + sessions[len(corpus_sessions()):]
+        exh = [s_ for s_ in exh if s_.rep in reps]
+        sessions = sessions[:ncorp] + exh + sessions[ncorp:]
         ctx.extra["exhaustive_scope"] = ("every document shape with <= 5 nodes below the document node (%d shapes) x 3 representations: "
                                          "full isNodeAfter matrix; every insertion order of all nodes when the document has <= 5 nodes" % nshapes)
 
-    il, ml, lines, owner, dis, vio = evaluate(ctx, h, sessions, variant, "main")
+    crashes = []
+    for _attempt in range(12):
+        il, ml, lines, owner, dis, vio = evaluate(ctx, h, sessions, variant, "main")
+        cr = [v for v in vio if v["cls"] == "crash"]
+        if not cr:
+            break
+        # the harness died: remember the request, drop that case, run the rest again
+        k = min(len(il), len(lines) - 1)
+        si, ci = owner[k]
+        crashes.append({"cls": "crash", "what": cr[0]["what"], "at": lines[k],
+                        "lines": (sessions[si].header() if si >= 0 else []) + [lines[k]]})
+        if si < 0 or ci < 0:
+            break
+        del sessions[si].cases[ci]
+    vio = crashes + [v for v in vio if v["cls"] != "crash"]
     # case accounting
     seen = {}
     for idx, l in enumerate(lines):
@@ -789,6 +853,8 @@ def run(ctx):
         seen.setdefault((si, ci), []).append(l)
     for (si, ci), cl in seen.items():
         s = sessions[si]
+        if ci >= len(s.cases):
+            continue
         kind = s.cases[ci][0]
         text = s.rep + "|" + "|".join(s.shapes[d] for d in sorted(s.shapes)) + "|" + ";".join(cl)
         if kind == "afterall":
@@ -801,6 +867,22 @@ def run(ctx):
             nontriv = True
         ctx.case(nontrivial_key=text if nontriv else None, cls="%s/%s" % (kind, s.rep),
                  sample={"rep": s.rep, "docs": s.shapes, "ops": cl[:12]} if (si, ci) in ((3, 2), (4, 3)) else None)
+
+    # EXSLT set algebra through XPathEvaluator: consecutive pairs of an 'ident' case must deliver the same list
+    for (si, ci), cl in seen.items():
+        if ci >= len(sessions[si].cases) or sessions[si].cases[ci][0] != "ident":
+            continue
+        idxs = [i for i, o in enumerate(owner) if o == (si, ci)]
+        for k in range(0, len(idxs) - 1, 2):
+            if idxs[k + 1] >= len(il):
+                break
+            a, b = il[idxs[k]], il[idxs[k + 1]]
+            if a != b and not (a.startswith("ERR") or b.startswith("ERR")):
+                s_ = sessions[si]
+                dn = any(w.endswith(".0") for w in (a + " " + b).split())
+                ctx.fail("%s: %s ; %s ; %s" % ("set-identity", " ; ".join(s_.header()), lines[idxs[k]], lines[idxs[k + 1]]),
+                         "rep=%s %s -> %s but %s -> %s" % (s_.rep, lines[idxs[k]], a, lines[idxs[k + 1]], b),
+                         s_.header() + [lines[idxs[k]], lines[idxs[k + 1]]])
 
     # second stage: unions with operand values from the implementation
     s2 = union_stage(sessions, lines, owner, il)
